@@ -212,13 +212,19 @@ fn run_sync(seed: u64, mp: u64, n_pay: usize, max_crash: usize) {
 		*nodes[1].connect_style.borrow_mut() = ConnectStyle::BestBlockFirst;
 		let (_, _, chan_id, _) = create_announced_chan_between_nodes(&nodes, 0, 1);
 		mon_key = nodes[0].chain_monitor.chain_monitor.get_monitor(chan_id).unwrap().persistence_key().to_string();
+		let mut a2b = 0;
 		for _ in 0..n_pay {
-			match rng.below(10) {
+			let mut r = rng.below(10);
+			if (4..=6).contains(&r) && a2b < 3 {
+				r = 0;
+			}
+			match r {
 				0..=3 => {
 					send_payment(&nodes[0], &[&nodes[1]], 1_000_000 + rng.below(500_000));
+					a2b += 1;
 				},
 				4..=6 => {
-					send_payment(&nodes[1], &[&nodes[0]], 800_000 + rng.below(100_000));
+					send_payment(&nodes[1], &[&nodes[0]], 300_000 + rng.below(100_000));
 				},
 				7 => {
 					let (_, hash, ..) = route_payment(&nodes[0], &[&nodes[1]], 900_000);
